@@ -134,7 +134,11 @@ func verifyRawCerts(rawCerts [][]byte, certHashes []multihash.DecodedMultihash) 
 	}
 	// TODO: is this the best (and complete?) way to identify RSA certificates?
 	switch cert.SignatureAlgorithm {
-	case x509.SHA1WithRSA, x509.SHA256WithRSA, x509.SHA384WithRSA, x509.SHA512WithRSA, x509.MD2WithRSA, x509.MD5WithRSA:
+	case x509.SHA1WithRSA, x509.SHA256WithRSA, x509.SHA384WithRSA, x509.SHA512WithRSA, x509.MD2WithRSA, x509.MD5WithRSA,
+		x509.SHA256WithRSAPSS, x509.SHA384WithRSAPSS, x509.SHA512WithRSAPSS:
+		return errors.New("cert uses RSA")
+	}
+	if cert.PublicKeyAlgorithm == x509.RSA {
 		return errors.New("cert uses RSA")
 	}
 	if l := cert.NotAfter.Sub(cert.NotBefore); l > 14*24*time.Hour {
